@@ -3726,6 +3726,14 @@ void CWallet::AddActiveScriptPubKeyManWithDb(WalletBatch& batch, uint256 id, Out
     if (!batch.WriteActiveScriptPubKeyMan(static_cast<uint8_t>(type), id, internal)) {
         throw std::runtime_error(std::string(__func__) + ": writing active ScriptPubKeyMan id failed");
     }
+    // LoadActiveScriptPubKeyMan() removes the same ScriptPubKeyMan from the other (internal/external)
+    // slot in memory; remove its database record too, so that a reload yields the same state.
+    const auto& spk_mans_other = internal ? m_external_spk_managers : m_internal_spk_managers;
+    if (const auto it = spk_mans_other.find(type); it != spk_mans_other.end() && it->second->GetID() == id) {
+        if (!batch.EraseActiveScriptPubKeyMan(static_cast<uint8_t>(type), !internal)) {
+            throw std::runtime_error(std::string(__func__) + ": erasing active ScriptPubKeyMan id failed");
+        }
+    }
     LoadActiveScriptPubKeyMan(id, type, internal);
 }
 
